@@ -336,8 +336,9 @@ def update_safety_radius(run, funcs, pid, nverts=3):
         sr = to_z3(c.arg_after(st, 0).items[sridx])
         H = pre + hyps_of(st)
         cov.append(z3.And(pcs(st) + [z3.BoolVal(True)]))
-        goal = z3.And([sr >= 0] + [sr * sr >= 4 * x for x in r2] + [z3.Or([sr * sr == 4 * x for x in r2])])
-        run.prove('%s update_safety_radius path %d: sr >= 0, (sr/2)^2 >= every vertex radius^2, equality for one vertex' % (pid, k), H, z3.Not(goal), timeout=30,
+        # the property: at least twice the distance to the farthest vertex (a larger, still safe radius would also satisfy it)
+        goal = z3.And([sr >= 0] + [sr * sr >= 4 * x for x in r2])
+        run.prove('%s update_safety_radius path %d: sr >= 0 and (sr/2)^2 >= every vertex radius^2' % (pid, k), H, z3.Not(goal), timeout=30,
                   cross=(k == 0))
         side_obligations(run, '%s update_safety_radius' % pid, st, pre)
     run.prove('%s update_safety_radius: paths cover every non-negative radius2 tuple' % pid, pre, z3.Not(z3.Or(cov)), timeout=20, cross=False)
